@@ -23,20 +23,20 @@ type HReq struct {
 	Rpc  string `json:"rpc"`
 	Node int    `json:"node"`
 	// field selectors, interpreted per RPC
-	DsId   string    `json:"ds,omitempty"`   // good | unknown | empty | short | long
-	ItemId string    `json:"id,omitempty"`   // good | empty | short | long
-	Vec    string    `json:"vec,omitempty"`  // good | empty | short | long | nan | inf | huge
-	Meta   string    `json:"meta,omitempty"` // none | small | longkey | longval | many
-	K      uint32    `json:"k,omitempty"`
-	Items  int       `json:"items,omitempty"`
-	Dup    bool      `json:"dup,omitempty"`
-	BadIds int       `json:"bad_ids,omitempty"` // malformed item ids inside a batch
-	Part   string    `json:"part,omitempty"`    // good | unknown | short
-	Dim    uint32    `json:"dim,omitempty"`
-	Space  int32     `json:"space,omitempty"`
-	P      uint32    `json:"p,omitempty"`
-	R      uint32    `json:"r,omitempty"`
-	Seq    int       `json:"seq,omitempty"`
+	DsId   string `json:"ds,omitempty"`   // good | unknown | empty | short | long
+	ItemId string `json:"id,omitempty"`   // good | empty | short | long
+	Vec    string `json:"vec,omitempty"`  // good | empty | short | long | nan | inf | huge
+	Meta   string `json:"meta,omitempty"` // none | small | longkey | longval | many
+	K      uint32 `json:"k,omitempty"`
+	Items  int    `json:"items,omitempty"`
+	Dup    bool   `json:"dup,omitempty"`
+	BadIds int    `json:"bad_ids,omitempty"` // malformed item ids inside a batch
+	Part   string `json:"part,omitempty"`    // good | unknown | short
+	Dim    uint32 `json:"dim,omitempty"`
+	Space  int32  `json:"space,omitempty"`
+	P      uint32 `json:"p,omitempty"`
+	R      uint32 `json:"r,omitempty"`
+	Seq    int    `json:"seq,omitempty"`
 }
 
 type C12Case struct {
@@ -57,7 +57,7 @@ func genC12(r *simrt.Rand, tier string) json.RawMessage {
 		h := HReq{Rpc: rpcs[r.Intn(len(rpcs))], Node: r.Range(1, c.W3.Nodes), Seq: i}
 		h.DsId = pick("good", "good", "good", "unknown", "empty", "short", "long")
 		h.ItemId = pick("good", "good", "empty", "short", "long")
-		h.Vec = pick("good", "good", "empty", "short", "long", "nan", "inf")
+		h.Vec = pick("good", "good", "empty", "short", "long", "nan", "inf", "collinear", "collinear")
 		h.Meta = pick("none", "small", "longkey", "longval", "many")
 		h.K = []uint32{0, 1, 5, 1 << 20, math.MaxUint32}[r.Intn(5)]
 		h.Items = []int{0, 1, 3, 100, 101}[r.Intn(5)]
@@ -88,6 +88,14 @@ func mkVec(kind string, dim int, seed int) []float32 {
 		return nil
 	case "long":
 		return append(v, 1, 2)
+	case "collinear":
+		// a scaled copy of the vector of seed 0 (valid input; stresses the rounding of the cosine distance)
+		b := vecOf(7000, 1, dim)
+		f := float32(seed%9+2) * 0.37
+		for i := range b {
+			b[i] *= f
+		}
+		return b
 	case "nan":
 		v[0] = float32(math.NaN())
 	case "inf":
@@ -328,6 +336,18 @@ func execC12(raw json.RawMessage, wantLog bool) (out Outcome) {
 		good := r.ds[0]
 		if !r.canary("before", 0) {
 			return
+		}
+		// base items that later "collinear" vectors are scaled copies of
+		for j := 0; j < 3; j++ {
+			jj := j
+			bo := s.client(s.nodes[0], "base item", 8*time.Second, func(ctx context.Context, n *simNode) (interface{}, error) {
+				b := vecOf(7000, 1, good.dim)
+				for i := range b {
+					b[i] *= float32(jj + 1)
+				}
+				return n.svcData.Insert(ctx, &pb.InsertRequest{DatasetId: good.id.Bytes(), Id: idOf(7900 + jj).Bytes(), Value: b})
+			})
+			s.runUntil(func() bool { return bo.done }, 12*time.Second)
 		}
 		for i, h := range c.Reqs {
 			panicked, err := r.hostile(h, good)
